@@ -24,7 +24,8 @@ REQUIRED = ["prep_checked:dominion", "prep_checked:hart", "prep_rejections_check
             "sampled_phantom_cvrs_with_another_identifier_prefix", "lookups_with_repeated_sample_numbers", "manifest_columns_not_in_canonical_order",
             "manifest_counts_stored_unsigned_narrow_or_float", "manifest_already_carries_a_cumulative_count_column",
             "sample_given_as_a_series_with_other_row_labels", "cvrs_whose_tally_pool_is_not_their_own_batch",
-            "lookups_in_a_manifest_whose_phantom_batch_is_not_the_last_row"]
+            "lookups_in_a_manifest_whose_phantom_batch_is_not_the_last_row",
+            "sample_given_as_a_one_pass_iterator"]
 ASSUMPTIONS = ["unique (tabulator, batch) labels per manifest", "Dominion lookup is 1-based, Hart lookup 0-based, as each "
                "vendor module documents and its test pins", "phantom CVR ids use the documented prefix 'phantom-1-'"]
 N_CASES = {"quick": 8000, "thorough": 64000}
@@ -123,7 +124,7 @@ def run_shard(spec, rec):
         case["count_dtype"] = rng.choice((None, None, "uint64", "uint8", "int32", "float64"))
         case["phantom_prefix"] = rng.choice(("phantom-1-", "phantom-1-", "ph-1-", "Phantom-2-"))
         case["stale_cum"] = rng.random() < 0.15
-        case["sample_container"] = rng.choice(("list", "list", "array", "series", "series_relabelled"))
+        case["sample_container"] = rng.choice(("list", "list", "array", "series", "series_relabelled", "iterator"))
         case["tally_pool_mode"] = rng.choice((None, None, "own", "merged", "precinct"))
         run_case(case, rec)
 
@@ -226,7 +227,10 @@ def run_case(case, rec):
         if sc != "list":
             import pandas as pd
             arg = (np.array(sample) if sc == "array" else pd.Series(sample) if sc == "series"
+                   else iter(list(sample)) if sc == "iterator"      # (numbers streamed from a file or a generator: one pass)
                    else pd.Series(sample, index=list(range(len(sample), 0, -1))))
+            if sc == "iterator":
+                rec.count("sample_given_as_a_one_pass_iterator")
             rec.count("sample_given_as_array_or_series")
             if sc == "series_relabelled":
                 rec.count("sample_given_as_a_series_with_other_row_labels")
